@@ -203,6 +203,9 @@ def check_case(ctx, case):
         finally:
             events = hooks.rw_stop()
         if failed is not None:
+            if C.overflow_excusable(s, failed):
+                ctx.count("overflow_with_undefined_constant_part_unfiltered")
+                return
             ctx.violation("reduction_step_raised", f"{label}: {S.show(s)[:300]}: {failed.brief()}")
             return
         forms = [(ev[2], ev[3]) for ev in events if ev[0] == "form"]
@@ -227,6 +230,9 @@ def check_case(ctx, case):
     finally:
         events = hooks.rw_stop()
     if got.kind != "obj":
+        if C.overflow_excusable(s, got):
+            ctx.count("overflow_with_undefined_constant_part_unfiltered")
+            return
         ctx.violation("simplification_raised", f"{label}: {S.show(s)[:300]}: {got.brief()}")
         return
     traces = traces_from(events)
